@@ -173,9 +173,21 @@ def probe_volumes(exe):
 
 
 # ---------------------------------------------------------------- running
+VCHK = []          # (stored volume hex, mesh volume hex, line) of every force phase whose stored volume is not the volume of the mesh
+VCHK_SEEN = [0]
+
+
 def split_blocks(lines):
     blocks, cur = [], None
     for l in lines:
+        if l.startswith("vchk "):
+            # `volume_` right after apply_internal_forces against compute_volume() of the same, unmoved mesh: "V is the enclosed
+            # volume of the current mesh" (pressure clause); not part of the block the model replays
+            w = l.split()
+            VCHK_SEEN[0] += 1
+            if len(w) == 5 and w[3] != w[4] and len(VCHK) < 50:
+                VCHK.append((w[3], w[4], l))
+            continue
         if l == "begin":
             cur = []
             blocks.append(cur)
@@ -580,12 +592,16 @@ def run(ctx):
     scen = corpus(vol0) + gen_scenarios(r, n, vol0, tier)
     st = Stats()
     res = evaluate(scen, exe, V, st, use_model=drv_ok)
+    for sv, mv, ln in VCHK[:1]:
+        V.fail_input("the volume a pressure is computed from is not the enclosed volume of the current mesh: the cell holds %r, its mesh encloses %r "
+                     "(%d such force phases of %d)" % (unhex(sv), unhex(mv), len(VCHK), VCHK_SEEN[0]), {"log_line": ln, "note": "re-run the check with the same VERIF_SEED"})
     rcode, nviol = V.finish()
     samples = []
     for (mode, q), b in list(zip(scen, res["blocks"]))[:2]:
         samples.append({"mode": mode, "scenario": describe(q), "log_head": [pretty(l) for l in b[:12]]})
     cov = {
         "obligations": proof["obligations"], "discharged": proof["discharged"],
+        "force_phases_with_stored_volume_checked_against_the_mesh": VCHK_SEEN[0], "stored_volume_differs_from_mesh": len(VCHK),
         "checker_cmd": "lake build SimuVerif.Properties.C04 SimuVerif.Audit.C04 drv_c04 (+ lake env leanchecker in the thorough tier)",
         "trusted_base": vlib.TRUSTED_COMMON + [
             "harness/h_cycle.cpp: probe subclasses that call the unmodified apply_internal_forces and read the public getters before/after it",
